@@ -27,18 +27,24 @@ pub enum QueryTraversalStep {
 #[derive(Clone, Debug)]
 pub struct Item<S: Clone + Debug> {
     data: Option<S>,
+    /// The scope the item was defined in. (An item that is exported to other scopes has more than one incoming edge,
+    /// but it still lives in the scope it was defined in.)
+    parent: Option<SymbolIndex>,
 }
 
 impl<S: Clone + Debug> Item<S> {
-    fn new<OS: Into<Option<S>>>(data: OS) -> Self {
-        Self { data: data.into() }
+    fn new<OS: Into<Option<S>>>(data: OS, parent: Option<SymbolIndex>) -> Self {
+        Self {
+            data: data.into(),
+            parent,
+        }
     }
 }
 
 impl<S: Clone + Debug> Default for SymbolTable<S> {
     fn default() -> Self {
         let mut graph = StableGraph::new();
-        let root = graph.add_node(Item::new(None));
+        let root = graph.add_node(Item::new(None, None));
 
         Self { graph, root }
     }
@@ -68,7 +74,7 @@ impl<S: Clone + Debug> SymbolTable<S> {
         data: D,
     ) -> SymbolIndex {
         let id = id.into();
-        let new_nx = self.graph.add_node(Item { data: data.into() });
+        let new_nx = self.graph.add_node(Item::new(data, Some(parent_nx)));
         log::trace!(
             "Inserted node '{}' ({:?}) (parent: {:?})",
             &id,
@@ -171,8 +177,10 @@ impl<S: Clone + Debug> SymbolTable<S> {
     }
 
     pub fn parent(&self, nx: SymbolIndex) -> Option<SymbolIndex> {
-        let mut edges = self.graph.edges_directed(nx, Direction::Incoming);
-        edges.next().map(|edge| edge.source())
+        self.graph
+            .node_weight(nx)
+            .and_then(|item| item.parent)
+            .filter(|parent_nx| self.graph.contains_node(*parent_nx))
     }
 
     pub fn child(&self, nx: SymbolIndex, id: &Identifier) -> Option<SymbolIndex> {
